@@ -61,6 +61,8 @@ class Contract:
         pure_function=False,
         stable=None,
         field_types=None,
+        interfere=None,
+        rely=None,
     ):
         self.func = func
         self.params = params or {}
@@ -82,7 +84,9 @@ class Contract:
         self.refute_unroll = refute_unroll
         self.assume_only = assume_only  # a trusted (assumed) contract: used at calls, never verified
         self.pure_function = pure_function  # at calls: result is an uninterpreted function of the arguments
-        self.stable = stable or {}  # clauses that must hold after every statement of the body (rely/guarantee frame)
+        self.stable = stable or {}  # GUARANTEE: must hold across every simple statement (prev() = state before it)
+        self.interfere = interfere or []  # heap locations other threads may change between any two statements
+        self.rely = rely or {}  # RELY: what the interference preserves (prev() = state before the interference)
 
     def props_of(self, clause):
         for pat, ps in self.clause_props.items():
@@ -91,21 +95,22 @@ class Contract:
         return self.props
 
 
-SPEC_FUNCS = {"old", "implies", "iff", "forall", "exists", "pre_loop", "is_fresh", "unchanged", "typed", "ite", "alive_before", "same_field"}
+SPEC_FUNCS = {"prev", "old", "implies", "iff", "forall", "exists", "pre_loop", "is_fresh", "unchanged", "typed", "ite", "alive_before", "same_field"}
 
 
 class SpecCtx:
-    def __init__(self, pre, lets, loop_entry=None, names=()):
+    def __init__(self, pre, lets, loop_entry=None, names=(), prev=None):
         self.pre, self.lets, self.loop_entry = pre, lets, loop_entry
         self.names = set(names)
+        self.prev = prev
 
 
 def _spec_call(engine, n, st):
     """evaluation of the specification-only functions; returns a generator like Engine.eval"""
     ctx = engine.spec_ctx[-1]
     name = n.func.id
-    if name in ("old", "pre_loop"):
-        base = ctx.pre if name == "old" else ctx.loop_entry
+    if name in ("old", "pre_loop", "prev"):
+        base = ctx.pre if name == "old" else (ctx.loop_entry if name == "pre_loop" else ctx.prev)
         if base is None:
             raise OutsideSubset(f"{name}() without a {name} state")
         env = dict(base.env)
@@ -224,10 +229,10 @@ def _spec_state(engine, st, extra, ctx):
     return st.copy(env=env)
 
 
-def spec_bool(engine, text, st, extra=None, loop_entry=None, ctx=None):
+def spec_bool(engine, text, st, extra=None, loop_entry=None, ctx=None, prev=None):
     """(z3 Bool, state-with-new-facts) for a specification clause evaluated in st"""
     ctx = ctx or engine.fn_ctx
-    c2 = SpecCtx(ctx.pre, ctx.lets, loop_entry or ctx.loop_entry, ctx.names)
+    c2 = SpecCtx(ctx.pre, ctx.lets, loop_entry or ctx.loop_entry, ctx.names, prev=prev)
     engine.spec_ctx.append(c2)
     try:
         s = _spec_state(engine, st, extra, c2)
@@ -409,7 +414,10 @@ def _frame_obligations(engine, c, fq, pre, post, ctx, k):
     if allowed is None:
         return
     alive0 = engine.alive(pre)
+    interfered = {loc.rsplit(".", 1)[1] for loc in c.interfere}
     for fld, arr in post.heap.items():
+        if fld in interfered:
+            continue  # shared with other threads: the per-statement guarantee (stable.*) is the frame
         old = pre.heap.get(fld)
         if old is None:
             old = engine.heap0.get(fld)
@@ -535,11 +543,12 @@ def call_by_contract(engine, c, fi, args, kwargs, st, node):
         if fi.node.name == "__init__":
             result = SV_NONE
         else:
-            f2, result = engine.fresh_of_type(parse_type(rty) if rty is not None else TAny, "ret_" + fi.node.name)
+            fresh = bool(c.fresh_result)
+            f2, result = engine.fresh_of_type(parse_type(rty) if rty is not None else TAny, "ret_" + fi.node.name, alive=not fresh)
             post = post.with_facts(f2)
-            if c.fresh_result and result.kind == "v":
+            if fresh and result.kind == "v":
                 al = engine.alive(post)
-                # fresh_of_type assumed "alive in the initial state"; a fresh result is not: restate
+                post = post.with_facts([Not(al[result.t])])
                 post = post.with_ghost("alive", z3.Store(al, result.t, z3.BoolVal(True)))
         post = post.assume(*normal_extra)
         for name, text in c.ensures.items():
